@@ -1,7 +1,7 @@
 (* Props/C09.v — property theorems only. *)
 From Coq Require Import List NArith ZArith Bool Permutation.
 From N0 Require Import Base.PyStr Base.PyVal Compare.Util Compare.Flags Compare.Match Compare.Model
-  Compare.Spec Compare.WalkLemmas Compare.VerdictProofs Compare.ReportProofs Compare.SwapProofs Compare.KeyedProofs Compare.CompleteProofs.
+  Compare.Spec Compare.WalkLemmas Compare.VerdictProofs Compare.ReportProofs Compare.SwapProofs Compare.KeyedProofs Compare.CompleteProofs Compare.TransformTypesProofs.
 Import ListNotations.
 
 (* Every entry of a report is true of the operands (both walks, every flag state;
@@ -80,3 +80,23 @@ Theorem C09_nonvacuous :
   (exists r, compare_top flags_init no_opts MKeyed (PSeq []) ex_a ex_b = Ok r /\ length r = 6).
 Proof. exact faithful_example. Qed.
 Print Assumptions C09_nonvacuous.
+
+(* with a transform: when the transformed values of a pair are of different types, the entry written for the pair
+   (not_equal; difftypes under the check-types flag) carries the ORIGINAL values x, y - the transform decides
+   equality only.  (The same-type case is C10_transform_pair_partial.) *)
+Theorem C09_type_clash_under_transform_shows_originals :
+  forall fl o rec par ck tp p pd sl sd x y,
+  same_type (transformed o tp x) (transformed o tp y) = false ->
+  cmp_pair fl o rec par ck tp p pd sl sd x y =
+  Ok (if only_ok o par pd then [if f_types fl then DiffType pd x y else NotEq p x y] else []).
+Proof. exact transform_pair_types. Qed.
+Print Assumptions C09_type_clash_under_transform_shows_originals.
+
+(* non-vacuity: 2.5 against the text "x" under transform ("T", round) *)
+Theorem C09_type_clash_under_transform_example :
+  transformed tt_opts [47; 84]%N tt_x = Leaf (SInt 2) /\
+  same_type (transformed tt_opts [47; 84]%N tt_x) (transformed tt_opts [47; 84]%N tt_y) = false /\
+  forall rec, cmp_pair flags_init tt_opts rec PDict (PSeq []) [47; 84]%N [SKey [84]%N] [SKey [84]%N] [] [] tt_x tt_y
+              = Ok [NotEq [SKey [84]%N] tt_x tt_y].
+Proof. exact transform_types_example. Qed.
+Print Assumptions C09_type_clash_under_transform_example.
